@@ -990,8 +990,21 @@ pub fn run_spec(spec: &Spec, or: &Oracles, root: &str) -> RunOut {
 /// Run one spec in an existing directory (e.g. a recovered crash image) whose contents
 /// correspond to `model`.
 pub fn run_spec_in(spec: &Spec, or: &Oracles, root: &str, model: Model) -> RunOut {
+    run_spec_inner(spec, or, root, model, None)
+}
+
+/// Continue, inside the episode that is already running, on a store that is already open (the
+/// very instance that performed a recovery): its ops, oracles and the end-of-run drain are those of
+/// `run_spec_in`. The returned trace therefore starts with the recovery's own fs calls.
+pub fn continue_on(rl: RaftLog<TT>, spec: &Spec, or: &Oracles, root: &str, model: Model) -> RunOut {
+    run_spec_inner(spec, or, root, model, Some(rl))
+}
+
+fn run_spec_inner(spec: &Spec, or: &Oracles, root: &str, model: Model, existing: Option<RaftLog<TT>>) -> RunOut {
     let initial_model = model.clone();
-    core::begin(EpisodeCfg { root: root.to_string(), chooser: chooser_of(&spec.sched), faults: spec.faults.clone(), flush_batch: spec.flush_batch });
+    if existing.is_none() {
+        core::begin(EpisodeCfg { root: root.to_string(), chooser: chooser_of(&spec.sched), faults: spec.faults.clone(), flush_batch: spec.flush_batch });
+    }
     let mut ex = Exec {
         spec,
         or,
@@ -1020,7 +1033,17 @@ pub fn run_spec_in(spec: &Spec, or: &Oracles, root: &str, model: Model) -> RunOu
     };
     let cfg0 = spec.cfg.clone();
     let mut ops_done = 0;
-    if !ex.do_open(&cfg0, false) {
+    let opened = match existing {
+        Some(rl) => {
+            ex.rl = Some(rl);
+            ex.generation = 1;
+            ex.opens.push(OpenInfo { generation: 1, t_begin: 0, t_end: core::trace_len(), ok: true, err: String::new(), cfg: cfg0.clone(), nrec: 0, raced: false });
+            core::ev(HEv::StoreOpen { generation: 1, ok: true });
+            true
+        }
+        None => ex.do_open(&cfg0, false),
+    };
+    if !opened {
         let err = ex.opens.last().unwrap().err.clone();
         if !ex.faulty {
             let mine = ex.or.model_eq || ex.or.restart_eq;
@@ -1047,6 +1070,35 @@ pub fn run_spec_in(spec: &Spec, or: &Oracles, root: &str, model: Model) -> RunOu
             // post-op oracles (atomic w.r.t. the op: no yield point in between except reads)
             if ex.or.cache_acct {
                 ex.check_cache_acct("after op");
+            }
+            if ex.or.no_panic {
+                // C16: the read paths must not panic in any reachable state (errors are fine here)
+                if let Err(p) = ex.full_read() {
+                    ex.violate(format!("panic:{}:read", panic_class(&last_panic_loc(), p.splitn(3, ':').nth(2).unwrap_or(""))), format!("read(0, MAX) after op #{i} {} panicked: {p}", op.short()));
+                    ex.abort("panic in read");
+                }
+                let r = {
+                    let rl = ex.rl();
+                    catch_unwind(AssertUnwindSafe(|| {
+                        let mut d = rl.dump_data();
+                        d.iter().count()
+                    }))
+                };
+                if let Err(p) = r {
+                    ex.violate(format!("panic:{}:dump_iter", panic_class(&last_panic_loc(), &panic_msg(&*p))), format!("dump_data().iter() after op #{i} panicked: {}", panic_msg(&*p)));
+                    ex.abort("panic in dump_iter");
+                }
+                let r = {
+                    let rl = ex.rl();
+                    catch_unwind(AssertUnwindSafe(|| (rl.stat(), rl.on_disk_size())))
+                };
+                if let Err(p) = r {
+                    ex.violate(format!("panic:{}:stat", panic_class(&last_panic_loc(), &panic_msg(&*p))), format!("stat()/on_disk_size() after op #{i} panicked: {}", panic_msg(&*p)));
+                    ex.abort("panic in stat");
+                }
+                if ex.aborted.is_some() {
+                    break;
+                }
             }
             if ex.or.model_eq || ex.or.reads_ok || ex.or.reject_clean || ex.or.restart_eq || ex.or.reopen_ok {
                 let mine = ex.or.model_eq;
@@ -1209,14 +1261,24 @@ pub fn run_contenders(spec: &Spec, root: &str) -> RunOut {
     let mut probes: BTreeMap<String, u64> = BTreeMap::new();
     let tid_of = |who: u8| ep.thread_names.iter().position(|n| *n == format!("C{who}")).unwrap_or(255) as u8;
     let mut lock_free_since: usize = 0;
+    // per contender: 0 idle, 1 attempting, 2 owner, 3 dropping
+    let mut phase: BTreeMap<u8, u8> = BTreeMap::new();
     for (pos, e) in ep.trace.iter().enumerate() {
         match e {
             Ev::Fs(f) if f.file == crate::shadow::LOCK => match f.op {
                 crate::core::FsOp::Flock if f.res >= 0 => lock_holder = Some(f.tid),
                 crate::core::FsOp::Flock => {
                     *probes.entry("lock_refusals".into()).or_default() += 1;
-                    if lock_holder.is_none() {
-                        push("lock-refused-while-free".into(), format!("flock failed at trace position {pos} although nobody held the lock (free since {lock_free_since})"));
+                    match lock_holder {
+                        None => push("lock-refused-while-free".into(), format!("flock failed at trace position {pos} although nobody held the lock (free since {lock_free_since})")),
+                        Some(h) => {
+                            // the holder must be an owner, or a contender inside its own open attempt / drop
+                            let who = ep.thread_names.get(h as usize).and_then(|n| n.strip_prefix('C')).and_then(|n| n.parse::<u8>().ok());
+                            let busy = who.map(|w| phase.get(&w).copied().unwrap_or(0) != 0).unwrap_or(false);
+                            if !busy {
+                                push("lock-held-by-nobody".into(), format!("flock failed at trace position {pos}: the lock is still held through a descriptor of thread {:?}, which neither owns the directory nor is opening or dropping it", ep.thread_names.get(h as usize)));
+                            }
+                        }
                     }
                 }
                 crate::core::FsOp::Funlock | crate::core::FsOp::Close if lock_holder == Some(f.tid) => {
@@ -1229,8 +1291,10 @@ pub fn run_contenders(spec: &Spec, root: &str) -> RunOut {
                 match what.as_str() {
                     "attempt" => {
                         attempt_at.insert(*who, pos);
+                        phase.insert(*who, 1);
                     }
                     "ok" => {
+                        phase.insert(*who, 2);
                         *probes.entry("opens_ok".into()).or_default() += 1;
                         if let Some(o) = owner {
                             push("two-owners".into(), format!("contender C{who} opened the directory while C{o} still owned it"));
@@ -1238,12 +1302,16 @@ pub fn run_contenders(spec: &Spec, root: &str) -> RunOut {
                         owner = Some(*who);
                     }
                     "dropbegin" => {
+                        phase.insert(*who, 3);
                         if owner == Some(*who) {
                             owner = None;
                         }
                     }
-                    "dropend" => {}
+                    "dropend" => {
+                        phase.insert(*who, 0);
+                    }
                     w if w.starts_with("err:") => {
+                        phase.insert(*who, 0);
                         *probes.entry("opens_refused".into()).or_default() += 1;
                         let t = tid_of(*who);
                         let from = attempt_at.get(who).copied().unwrap_or(0);
@@ -1265,7 +1333,10 @@ pub fn run_contenders(spec: &Spec, root: &str) -> RunOut {
                             }
                         }
                     }
-                    w if w.starts_with("panic:") => push("open-panic".into(), format!("contender C{who}: {w}")),
+                    w if w.starts_with("panic:") => {
+                        phase.insert(*who, 0);
+                        push("open-panic".into(), format!("contender C{who}: {w}"))
+                    }
                     w if w.starts_with("state-mismatch") => push("owner-sees-wrong-state".into(), format!("contender C{who}: {w}")),
                     w if w.starts_with("flush-not-acked") => push("owner-flush-not-acked".into(), format!("contender C{who}: its flush was not acknowledged")),
                     _ => {}
